@@ -20,7 +20,7 @@ TECHNIQUE = ("exhaustive enumeration of temperature unit pairs/triples and fixed
              "generated user conversion tables in fresh types, against an independent affine model")
 RULE = ("temperature part: all 9 ordered pairs and 27 triples enumerated with probe amounts, the five defining fixed "
         "points, and Hypothesis amounts of every kind; comparison operators across units; user part: per case a fresh "
-        "type without reference unit with 2-5 units and a table in mapping or list form with rows for a subset of ordered "
+        "type without reference unit with 2-5 units (some declared as multiples of others) and a table in mapping or list form with rows for a subset of ordered "
         "pairs (one direction only with arbitrary factor/offset, or both directions generated from hidden per-unit "
         "affine maps), probes over all ordered pairs incl. pairs without any row. Oracle: own table lookup (forward "
         "a*f+o, reverse (a-o)/f, else UnitConversionError) and the constants 9/5, 32, 273.15, 459.67 from the reference "
@@ -89,11 +89,19 @@ def gen_user(draw):
             if draw(st.integers(0, 4)) == 0:
                 f = -f
             rows.append([i, j, draw(gen.encode(st.just(f), kinds)), draw(gen.encode(gen.fractions(), kinds))])
+    # some units are declared as multiples of earlier ones (mK = 0.001 K): they carry a scale of their own, but in a
+    # type without reference unit only the table converts, so they are units like any other
+    defs = [None] * n
+    for i in range(1, n):
+        if draw(st.integers(0, 2)) == 0:
+            defs[i] = [draw(st.integers(0, i - 1)),
+                       draw(st.sampled_from([["int", "1"], ["int", "1000"], ["dec", "1/1000"], ["frac", "1/3"],
+                                             ["int", "60"]]))]
     probes = [[i, j, draw(gen.encode(gen.fractions(), ("int", "dec", "frac", "decp")))]
               for i, j in draw(st.lists(st.sampled_from(pairs + [(0, 0)]), min_size=2, max_size=8))]
     triples = [[draw(st.integers(0, n - 1)) for _ in range(3)] for _ in range(draw(st.integers(0, 3)))]
     return {"k": "user", "n": n, "form": draw(st.sampled_from(["map", "list"])), "rows": rows,
-            "consistent": consistent, "probes": probes, "triples": triples,
+            "consistent": consistent, "probes": probes, "triples": triples, "defs": defs,
             "tamt": draw(gen.encode(gen.fractions(), ("dec", "frac")))}
 
 
@@ -172,7 +180,20 @@ def run_case(case, ctx):
     # user tables
     n = next(_ctr)
     T = QuantityMeta(f"C14T{n}", (Quantity,), {})
-    units = [T.new_unit(f"c14u{n}_{i}") for i in range(case["n"])]
+    units = []
+    defs = case.get("defs") or [None] * case["n"]
+    for i in range(case["n"]):
+        if defs[i] is None:
+            units.append(T.new_unit(f"c14u{n}_{i}"))
+            continue
+        k_of, f = defs[i]
+        ctx.label("scaled_unit")
+        try:
+            units.append(T.new_unit(f"c14u{n}_{i}", f"unit {i}", mknum(f) * units[k_of]))
+        except Exception as exc:  # noqa: BLE001
+            ctx.viol(f"user/declare/{type(exc).__name__}", f"declaring a unit as {exact(f)} x {units[k_of]} in a type "
+                     f"without reference unit raised {type(exc).__name__}: {exc}")
+            return
     table = {}
     for i, j, f, o in case["rows"]:
         table[(i, j)] = (exact(f), exact(o))
